@@ -30,8 +30,8 @@ def run(prop="C05", tier="quick", rules=("R-STALE", "R-CLOBBER", "R-OVERLAP", "R
         r["obligations"] += st.get("overlap_obligations", 0)
         r["undecided"] = r.get("undecided", 0) + st.get("overlap_undecided", 0)
     if "R-CONSTSRC" in rules:
-        if st.get("constsrc_obligations", 0) < 3:
-            raise AnalysisBroken("R-CONSTSRC: only %d writes through input-only operands seen (floor 3: mpz_root, mpz_rootrem x2)" % st.get("constsrc_obligations", 0))
+        if st.get("constsrc_obligations", 0) < 1:
+            raise AnalysisBroken("R-CONSTSRC: only %d writes through input-only operands seen (floor 1; today mpz_root, mpz_rootrem x2 and the fixtures)" % st.get("constsrc_obligations", 0))
         r["obligations"] += st.get("constsrc_obligations", 0)
         r["undecided"] = r.get("undecided", 0) + st.get("constsrc_undecided", 0)
     if "R-EXTENT" in rules:
